@@ -184,13 +184,8 @@ impl<'a> ProgGen<'a> {
             4 => Cmd::Chain(self.chain()),
             5 => Cmd::Then(Box::new(self.cmd(depth - 1)), Box::new(self.cmd(depth - 1))),
             6 => {
-                let mut a = self.cmd(depth - 1);
-                // `a.and(b)` extends `a` itself, so a handle on `a` would cover `b` too: keep the
-                // left operand free of a directly attached handle
-                if matches!(a, Cmd::Abortable(..)) {
-                    a = Cmd::All(vec![a]);
-                }
-                Cmd::And(Box::new(a), Box::new(self.cmd(depth - 1)))
+                // `a.and(b)` extends `a` itself, so a handle taken on `a` covers `b` too
+                Cmd::And(Box::new(self.cmd(depth - 1)), Box::new(self.cmd(depth - 1)))
             }
             7 => {
                 let n = self.rng.range(0, u64::from(self.cfg.fanout)) as usize;
